@@ -1,5 +1,5 @@
 import os
-LOOPS = {r'nameOf': 26, r'RK3Sym|R3Sym|^h_|makeOffer': 5, r'SaslHtMechanism10fromString': 9, r'__find_uniq_type_in_pack': 10,
+LOOPS = {r'nameOf': 26, r'shim5eager': 5, r'RK3Sym|R3Sym|^h_|makeOffer': 5, r'SaslHtMechanism10fromString': 9, r'__find_uniq_type_in_pack': 10,
          r'QListI7QStringE13node_destruct': 8, r'QListI7QStringE9node_copy': 8}
 def I(name, entry, **kw):
     d = dict(name=name, entry=entry, unwind=4, timeout_s=300, mem_gb=6, tiers=('quick', 'thorough'), model_loop_bound=26, bound=''); d.update(kw)
@@ -7,7 +7,7 @@ def I(name, entry, **kw):
     return d
 def G(name, instances, models, **cxx):
     defs = {'VP_NOFF': 3, 'VP_NDIS': 2, '_GLIBCXX_RANGES': 1}; defs.update(cxx)
-    return dict(name=name, harness='h.cpp', ranges_shim=True,
+    return dict(name=name, harness='h.cpp', ranges_shim=False,
                 tus=['src/base/QXmppSasl.cpp', 'src/client/QXmppConfiguration.cpp'],
                 models=models, cxxdefs=defs, loop_bounds=LOOPS, instances=instances)
 BASE = ['c05_str.c', 'c05_list.c', 'models.c']
@@ -21,6 +21,8 @@ SPEC = dict(
         G('choose_cut', [choose(o, d) for o in (0, 1, 2, 3) for d in (0, 1, 2)]
                         + [I('default_plain_o%d' % o, 'h_default_plain', cdefs={'C05_NOFF': o, 'C05_NDIS': 0}, unwind=o + 1) for o in (1, 2, 3)],
           BASE + ['c05_cut.c']),
+        G('dbg', [I('dbg%s' % i, 'h_dbg%s' % i, cdefs={'C05_NOFF': 1, 'C05_NDIS': 2}, unwind=2) for i in 'ABC'], BASE, VP_DEBUG_ENTRIES=1),
+        G('dbgcut', [I('dbg%s' % i, 'h_dbg%s' % i, cdefs={'C05_NOFF': 1, 'C05_NDIS': 2}, unwind=2) for i in 'DEFGH'], BASE + ['c05_cut.c'], VP_DEBUG_ENTRIES=1),
     ],
     bounds=[], assumptions=[], outside=[],
 )
